@@ -58,6 +58,8 @@ impl<const BITS: usize, const LIMBS: usize> Uint<BITS, LIMBS> {
         // See <https://gmplib.org/manual/Nth-Root-Algorithm>
         let mut decreasing = false;
         loop {
+            #[cfg(recmo_uint_verif)]
+            crate::verif_hooks::hit(crate::verif_hooks::Hook::root_iteration);
             // OPT: This could benefit from single-limb multiplication
             // and division.
             //
@@ -67,6 +69,10 @@ impl<const BITS: usize, const LIMBS: usize> Uint<BITS, LIMBS> {
                 .checked_pow(deg_m1)
                 .map_or(Self::ZERO, |power| self / power);
             let iter = (division + deg_m1 * result) / Self::from(degree);
+            #[cfg(recmo_uint_verif)]
+            if !decreasing && iter > result {
+                crate::verif_hooks::hit(crate::verif_hooks::Hook::root_capped_step);
+            }
             match (decreasing, iter.cmp(&result)) {
                 // Stop when we hit fix point or stop decreasing.
                 (_, Ordering::Equal) | (true, Ordering::Greater) => break result,
